@@ -218,6 +218,11 @@ pub fn populate(f: &mut Fmt, recipe: Recipe, rng: &mut Rng) {
         let how = pick_alloc(rng);
         f.add_file(0, &name11(&format!("PRE{}.DAT", i)), 0x20, &payload(t, 0, sz as usize), how);
     }
+    // a multi-cluster file at the very top of the volume: its links are the highest cluster numbers
+    if !fat16_root || root_room(f) >= 9 {
+        let t = next_tag();
+        f.add_file(0, &name11("TOP.DAT"), 0x20, &payload(t, 0, (3 * cb + 5).min(200_000) as usize), Alloc::Tail);
+    }
     if recipe == Recipe::Rich && (!fat16_root || root_room(f) >= 10) {
         f.add_label(0, b"VERIFLABEL ");
         f.add_deleted(0, &name11("GONE.TXT"));
@@ -267,6 +272,15 @@ pub fn populate(f: &mut Fmt, recipe: Recipe, rng: &mut Rng) {
     if !fat16_root || root_room(f) >= 3 {
         let sub1 = f.mkdir(0, &name11("SUB1"), 0, Alloc::Seq);
         let _ = sub1;
+    }
+    if recipe == Recipe::Rich && (!fat16_root || root_room(f) >= 3) {
+        // directories carrying other attribute bits too (read-only, hidden)
+        let ro = f.mkdir(0, &name11("RODIR"), 0x01, Alloc::Seq);
+        let t = next_tag();
+        f.add_file(ro, &name11("INRO.DAT"), 0x20, &payload(t, 0, 100), Alloc::Seq);
+        if !fat16_root || root_room(f) >= 3 {
+            f.mkdir(0, &name11("HIDDIR"), 0x02, Alloc::Scatter);
+        }
     }
 }
 
